@@ -2,6 +2,7 @@
  * Inputs: an exact-size heap window of I.inlen bytes (I.inlen symbolic, up to INT_MAX); the first
  * MAXIN bytes are recorded in the counterexample, the rest are unconstrained. */
 #include "asn1.h"
+#include "libc.h"
 #include "src/asn1.c"
 #include "stubs_stdio.h"
 
@@ -265,5 +266,241 @@ void h_asn1_small_predicates(void)
 	asn1_length_is_zero(W.dlen);
 	asn1_length_le(W.dlen, W.outlen0);
 	asn1_check(W.ival);
+	CANARY("returned");
+}
+
+//@job name=asn1_integer_to_der props=C06,C14,C01,C02 enforce=asn1_integer_to_der_ex replace=asn1_length_to_der,memcpy loops=1
+void h_asn1_integer_to_der(void)
+{
+	INPUT(wr_in, W); ASSUME(W.dlen <= 70000);
+	MKBUF(d0, W.data, W.dlen); const uint8_t *d = (W.mode & 0x80) ? NULL : d0;
+	if (d != NULL) ASSUME(W.dlen >= 1);
+	WR_SETUP(DER_TLV_SZ(W.dlen + 1));
+	int ret = asn1_integer_to_der_ex(W.tag, d, W.dlen, out, &outlen);
+	if (ret == 1 && W.mode % 3 == 2) { CANARY("wrote"); }
+	CANARY("returned");
+}
+
+/* ------------------------------------------------------------------ OBJECT IDENTIFIER */
+#ifndef OID_OUT
+#define OID_OUT ((O.mode & 1) ? obuf : NULL)
+#endif
+typedef struct { uint32_t nodes[34]; size_t cnt; uint32_t a; uint8_t mode; size_t outlen0; } oid_in;
+DECL_INPUT(oid_in);
+
+//@job name=asn1_oid_node_to_base128 props=C06,C14 enforce=asn1_oid_node_to_base128 unwindset=asn1_oid_node_to_base128.*:7
+void h_asn1_oid_node_to_base128(void)
+{
+	INPUT(oid_in, O);
+	MKOUT(obuf, OID_B128_SZ(O.a)); uint8_t *op = (O.mode & 1) ? obuf : NULL; size_t outlen = O.outlen0;
+	asn1_oid_node_to_base128(O.a, &op, &outlen);
+	CANARY("returned");
+}
+
+//@job name=asn1_oid_node_from_base128 props=C06,C14 enforce=asn1_oid_node_from_base128 unwindset=asn1_oid_node_from_base128.*:7
+void h_asn1_oid_node_from_base128(void)
+{
+	RD_SETUP; uint32_t a;
+	int ret = asn1_oid_node_from_base128(&a, &in, &inlen);
+	if (ret == 1) { CANARY("success"); }
+	CANARY("returned");
+}
+
+/* lemma: arc encoding round-trips for every 32-bit arc, and is minimal */
+//@job name=asn1_oid_node_roundtrip props=C14 expect=assertion unwind=8
+void h_asn1_oid_node_roundtrip(void)
+{
+	INPUT(oid_in, O);
+	uint8_t enc[5]; uint8_t *p = enc; size_t n = 0; uint32_t b = 0;
+	asn1_oid_node_to_base128(O.a, &p, &n);
+	CHECK(n >= 1 && n <= 5 && p == enc + n, "arc encodes into 1..5 octets");
+	const uint8_t *q = enc; size_t ql = n;
+	CHECK(asn1_oid_node_from_base128(&b, &q, &ql) == 1, "decode(encode(arc)) accepted");
+	CHECK(b == O.a && ql == 0, "decode(encode(arc)) == arc, all octets consumed");
+	CANARY("returned");
+}
+
+//@job name=asn1_oid_from_octets props=C06,C14 enforce=asn1_object_identifier_from_octets replace=asn1_oid_node_from_base128 loops=1
+void h_asn1_oid_from_octets(void)
+{
+	RD_SETUP; INPUT(oid_in, O);
+	MKOUT(nb, ASN1_OID_MAX_NODES * sizeof(uint32_t)); uint32_t *nodes = (O.mode & 1) ? NULL : (uint32_t *)nb; size_t cnt;
+	int ret = asn1_object_identifier_from_octets(nodes, &cnt, in, inlen);
+	OBSERVE_INT("ret", ret);
+	if (ret == 1) { CANARY("success"); }
+	CANARY("returned");
+}
+
+//@job name=asn1_oid_from_der props=C06,C14 enforce=asn1_object_identifier_from_der_ex replace=asn1_length_from_der,asn1_object_identifier_from_octets
+void h_asn1_oid_from_der(void)
+{
+	RD_SETUP;
+	MKOUT(nb, ASN1_OID_MAX_NODES * sizeof(uint32_t)); size_t cnt;
+	int ret = asn1_object_identifier_from_der_ex(I.tag, (uint32_t *)nb, &cnt, &in, &inlen);
+	if (ret == 1) { CANARY("success"); }
+	CANARY("returned");
+}
+
+typedef struct { size_t cnt[3]; size_t infos_cnt; } info_in;
+DECL_INPUT(info_in);
+#define INFOS_SETUP \
+	INPUT(info_in, T); ASSUME(T.infos_cnt <= 3 && T.cnt[0] <= 32 && T.cnt[1] <= 32 && T.cnt[2] <= 32); \
+	uint32_t tn0[32], tn1[32], tn2[32]; \
+	ASN1_OID_INFO tbl[3] = { { 1, "a", tn0, T.cnt[0], 0, "" }, { 2, "b", tn1, T.cnt[1], 0, "" }, { 3, "c", tn2, T.cnt[2], 0, "" } }; \
+	MKOUT(ib, T.infos_cnt * sizeof(ASN1_OID_INFO)); ASN1_OID_INFO *infos = (ASN1_OID_INFO *)ib; \
+	if (T.infos_cnt > 0) infos[0] = tbl[0]; if (T.infos_cnt > 1) infos[1] = tbl[1]; if (T.infos_cnt > 2) infos[2] = tbl[2]
+
+//@job name=asn1_oid_info_from_der_ex props=C06,C14 enforce=asn1_oid_info_from_der_ex replace=asn1_object_identifier_from_der_ex,memcmp loops=1
+void h_asn1_oid_info_from_der_ex(void)
+{
+	RD_SETUP; INFOS_SETUP;
+	MKOUT(nb, ASN1_OID_MAX_NODES * sizeof(uint32_t)); size_t cnt; const ASN1_OID_INFO *info;
+	int ret = asn1_oid_info_from_der_ex(&info, (uint32_t *)nb, &cnt, infos, T.infos_cnt, &in, &inlen);
+	if (ret == 1) { CANARY("success"); }
+	CANARY("returned");
+}
+
+//@job name=asn1_oid_info_from_der props=C06,C14 enforce=asn1_oid_info_from_der replace=asn1_oid_info_from_der_ex,asn1_object_identifier_print
+void h_asn1_oid_info_from_der(void)
+{
+	RD_SETUP; INFOS_SETUP;
+	const ASN1_OID_INFO *info;
+	int ret = asn1_oid_info_from_der(&info, infos, T.infos_cnt, &in, &inlen);
+	if (ret == 1) { CANARY("success"); }
+	CANARY("returned");
+}
+
+//@job name=asn1_utf8char props=C06,C14 enforce=asn1_utf8char_from_bytes unwindset=asn1_utf8char_from_bytes.*:5
+void h_asn1_utf8char(void)
+{
+	RD_SETUP; uint32_t c;
+	int ret = asn1_utf8char_from_bytes(&c, &in, &inlen);
+	OBSERVE_INT("ret", ret);
+	NCHECK(!(I.inlen >= 2 && (I.buf[0] & 0xe0) == 0xc0 && (I.buf[1] & 0xc0) == 0x80) || ret == 1, "a well-formed 2-byte UTF-8 sequence is accepted");
+	NCHECK(!(I.inlen >= 3 && (I.buf[0] & 0xf0) == 0xe0 && (I.buf[1] & 0xc0) == 0x80 && (I.buf[2] & 0xc0) == 0x80) || ret == 1, "a well-formed 3-byte UTF-8 sequence is accepted");
+	NCHECK(!(I.inlen >= 4 && (I.buf[0] & 0xf8) == 0xf0 && (I.buf[1] & 0xc0) == 0x80 && (I.buf[2] & 0xc0) == 0x80 && (I.buf[3] & 0xc0) == 0x80) || ret == 1, "a well-formed 4-byte UTF-8 sequence is accepted");
+	NCHECK(!(ret == 1 && I.inlen >= 2 && (I.buf[0] & 0xe0) == 0xc0) || (I.buf[1] & 0xc0) == 0x80, "accepted 2-byte sequence has a continuation byte");
+	if (ret == 1) { CANARY("success"); }
+	CANARY("returned");
+}
+
+//@job name=asn1_is_utf8_string props=C06,C14 enforce=asn1_string_is_utf8_string replace=asn1_utf8char_from_bytes loops=1
+void h_asn1_is_utf8_string(void)
+{
+	RD_SETUP;
+	int ret = asn1_string_is_utf8_string((I.tag & 1) ? NULL : (const char *)in, inlen);
+	if (ret == 1) { CANARY("success"); }
+	CANARY("returned");
+}
+
+//@job name=asn1_is_printable_string props=C06,C14 enforce=asn1_string_is_printable_string loops=1 defs=-DASN1_STRING_CONTENT_POST
+void h_asn1_is_printable_string(void)
+{
+	RD_SETUP;
+	int ret = asn1_string_is_printable_string((const char *)in, inlen);
+	if (ret == 1) { CANARY("success"); }
+	CANARY("returned");
+}
+
+//@job name=asn1_is_ia5_string props=C06,C14 enforce=asn1_string_is_ia5_string loops=1
+void h_asn1_is_ia5_string(void)
+{
+	RD_SETUP;
+	int ret = asn1_string_is_ia5_string((const char *)in, inlen);
+	if (ret == 1) { CANARY("success"); }
+	CANARY("returned");
+}
+
+//@job name=asn1_utf8_string_from_der props=C06,C14 enforce=asn1_utf8_string_from_der_ex replace=asn1_type_from_der,asn1_string_is_utf8_string
+void h_asn1_utf8_string_from_der(void)
+{
+	RD_SETUP; const char *a; size_t alen;
+	int ret = asn1_utf8_string_from_der_ex(I.tag, &a, &alen, &in, &inlen);
+	if (ret == 1) { CANARY("success"); }
+	CANARY("returned");
+}
+
+//@job name=asn1_printable_string_from_der props=C06,C14 enforce=asn1_printable_string_from_der_ex replace=asn1_type_from_der,asn1_string_is_printable_string
+void h_asn1_printable_string_from_der(void)
+{
+	RD_SETUP; const char *a; size_t alen;
+	int ret = asn1_printable_string_from_der_ex(I.tag, &a, &alen, &in, &inlen);
+	if (ret == 1) { CANARY("success"); }
+	CANARY("returned");
+}
+
+//@job name=asn1_ia5_string_from_der props=C06,C14 enforce=asn1_ia5_string_from_der_ex replace=asn1_type_from_der,asn1_string_is_ia5_string
+void h_asn1_ia5_string_from_der(void)
+{
+	RD_SETUP; const char *a; size_t alen;
+	int ret = asn1_ia5_string_from_der_ex(I.tag, &a, &alen, &in, &inlen);
+	if (ret == 1) { CANARY("success"); }
+	CANARY("returned");
+}
+
+//@job name=asn1_int_from_der props=C06,C14 enforce=asn1_int_from_der_ex replace=asn1_integer_from_der_ex unwindset=asn1_int_from_der_ex.*:6 checks=-signed
+void h_asn1_int_from_der(void)
+{
+	RD_SETUP; int a;
+	int ret = asn1_int_from_der_ex(I.tag, &a, &in, &inlen);
+	if (ret == 1) { CANARY("success"); }
+	CANARY("returned");
+}
+
+//@job name=asn1_bits_from_der props=C06,C14 enforce=asn1_bits_from_der_ex replace=asn1_bit_string_from_der_ex unwindset=asn1_bits_from_der_ex.*:33
+void h_asn1_bits_from_der(void)
+{
+	RD_SETUP; int bits;
+	int ret = asn1_bits_from_der_ex(I.tag, &bits, &in, &inlen);
+	if (ret == 1) { CANARY("success"); }
+	CANARY("returned");
+}
+
+typedef struct { size_t max_nums; int index; } seq_in;
+DECL_INPUT(seq_in);
+//@job name=asn1_sequence_of_int_from_der props=C06,C14 enforce=asn1_sequence_of_int_from_der replace=asn1_type_from_der,asn1_int_from_der_ex loops=1
+void h_asn1_sequence_of_int_from_der(void)
+{
+	RD_SETUP; INPUT(seq_in, S); ASSUME(S.max_nums <= 1024);
+	MKOUT(nb, S.max_nums * sizeof(int)); size_t cnt;
+	int ret = asn1_sequence_of_int_from_der((int *)nb, &cnt, S.max_nums, &in, &inlen);
+	OBSERVE_INT("ret", ret);
+	if (ret == 1) { CANARY("success"); }
+	CANARY("returned");
+}
+
+//@job name=asn1_types_get_count props=C06,C14 enforce=asn1_types_get_count replace=asn1_any_type_from_der loops=1
+void h_asn1_types_get_count(void)
+{
+	RD_SETUP; size_t cnt;
+	int ret = asn1_types_get_count(in, inlen, I.tag, &cnt);
+	if (ret == 1) { CANARY("success"); }
+	CANARY("returned");
+}
+
+//@job name=asn1_types_get_item_by_index props=C06,C14 enforce=asn1_types_get_item_by_index replace=asn1_any_type_from_der loops=1
+void h_asn1_types_get_item_by_index(void)
+{
+	RD_SETUP; INPUT(seq_in, S); const uint8_t *d; size_t dlen;
+	int ret = asn1_types_get_item_by_index(in, inlen, I.tag, S.index, &d, &dlen);
+	if (ret == 1) { CANARY("success"); }
+	CANARY("returned");
+}
+
+//@job name=asn1_tag_name props=C06 enforce=asn1_tag_name expect=array_bounds
+void h_asn1_tag_name(void)
+{
+	INPUT(seq_in, S);
+	const char *n = asn1_tag_name(S.index);
+	OBSERVE_INT("isnull", n == NULL);
+	CANARY("returned");
+}
+
+//@job name=asn1_oid_print props=C06 enforce=asn1_object_identifier_print loops=1
+void h_asn1_oid_print(void)
+{
+	INPUT(oid_in, O); ASSUME(O.cnt >= 1 && O.cnt <= ASN1_OID_MAX_NODES);
+	MKOUT(nb, O.cnt * sizeof(uint32_t)); const uint32_t *nodes = (O.mode & 2) ? NULL : (const uint32_t *)nb;
+	asn1_object_identifier_print(stderr, 0, 0, "label", (O.mode & 1) ? "name" : NULL, nodes, O.cnt);
 	CANARY("returned");
 }
